@@ -169,13 +169,114 @@ def split_kwargs(kwargs):
     return kw, meta
 
 
+# ---------------------------------------------------------------------------------------------
+# typed outputs: the operation's output KIND depends on the row (wave 3)
+# ---------------------------------------------------------------------------------------------
+# row type codes: b python bool, i python int, f python float, sN text of N characters,
+#                 vb/vi/vf lists of bools/ints/floats, vm list mixing ints and floats, vsN list of texts of N characters
+TYPED_FAMILIES = {
+    'intfloat': ['i', 'f'], 'boolint': ['b', 'i'], 'boolfloat': ['b', 'f'], 'num': ['b', 'i', 'f'],
+    'str': ['s1', 's2', 's3', 's5', 's8'],
+    'vecnum': ['vb', 'vi', 'vf', 'vm'], 'vecintfloat': ['vi', 'vf'], 'vecstr': ['vs1', 'vs2', 'vs4'],
+}
+TYPED_UNIFORM = ['b', 'i', 'f', 's3', 'vi', 'vf', 'vm', 'vs2']
+# dtype arguments that make sense for a family (text into a numeric dtype raises, numbers into <U render as decimals: not modelled)
+TYPED_DTYPES_NUM = ['none'] * 5 + ['false', 'int64', 'float64', 'float32', 'bool']
+TYPED_DTYPES_STR = ['none'] * 4 + ['false', 'U3']
+
+
+def typed_value(t, k, w):
+    """the output of call number k of an operation whose output type for that row is t (w = length of list outputs)"""
+    if t == 'b':
+        return k % 2 == 0
+    if t == 'i':
+        return 7 * k - 5
+    if t == 'f':
+        return (k + 1) * 0.75 - 2
+    if t[0] == 's':
+        return ('r%d' % k + 'qwertyuiop')[:int(t[1:])]
+    if t == 'vb':
+        return [(k + j) % 2 == 0 for j in range(w)]
+    if t == 'vi':
+        return [3 * k + j - 4 for j in range(w)]
+    if t == 'vf':
+        return [(k + 1) * 0.75 - 2 + 0.5 * j for j in range(w)]
+    if t == 'vm':
+        return [(k - 2 + j) if j % 2 == 0 else k + j + 0.25 for j in range(w)]
+    if t[:2] == 'vs':
+        return [('c%d%d' % (k, j) + 'abcdefgh')[:int(t[2:])] for j in range(w)]
+    raise ValueError(t)
+
+
+def enc_scal(x):
+    if isinstance(x, (bool, np.bool_)):
+        return ['b', int(bool(x))]
+    if isinstance(x, (int, np.integer)):
+        return ['i', int(x)]
+    if isinstance(x, (float, np.floating)):
+        x = float(x)
+        if x != x or x in (float('inf'), float('-inf')):
+            return None
+        fr = fractions.Fraction(x)
+        return ['f', [fr.numerator, fr.denominator]]
+    if isinstance(x, str):
+        return ['s', str(x)] if all(32 <= ord(c) < 127 for c in x) else None
+    return None
+
+
+def enc_out(o):
+    """typed value of one output of the operation / one entry of the returned array: scalar or flat list; None = not encodable"""
+    if isinstance(o, np.ndarray) and o.ndim == 0:
+        o = o.item()
+    if isinstance(o, (list, tuple, np.ndarray)):
+        if isinstance(o, np.ndarray) and o.ndim != 1:
+            return None
+        es = [enc_scal(x) for x in o]
+        return None if any(e is None for e in es) else ['vec', es]
+    e = enc_scal(o)
+    return None if e is None else ['sc', e]
+
+
+def enc_ret(ret, obj):
+    """(dtype name, rows) of the returned array"""
+    if obj:
+        rows = [enc_out(x) for x in ret]
+        return ['object', rows] if all(r is not None for r in rows) else None
+    if ret.dtype.kind not in 'biufU' or ret.ndim not in (1, 2):
+        return ['dtype=%s ndim=%d' % (ret.dtype.str.replace('<', 'le').replace('|', ''), ret.ndim), []]
+    name = ret.dtype.str if ret.dtype.kind == 'U' else ret.dtype.name
+    rows = [enc_out(ret[i]) for i in range(len(ret))]
+    return [name, rows] if all(r is not None for r in rows) else None
+
+
+def cscal(e):
+    k, v = e
+    if k == 'b':
+        return '(SBool %s)' % cbool(v)
+    if k == 'i':
+        return '(SInt %s)' % cz(v)
+    if k == 'f':
+        return '(SFloat %s %d%%positive)' % (cz(v[0]), v[1])
+    return '(SStr %s)' % cstr(v)
+
+
+def coval(o):
+    return '(OSc %s)' % cscal(o[1]) if o[0] == 'sc' else '(OVec %s)' % clist([cscal(x) for x in o[1]])
+
+
+DREQ = {'none': 'DNone', 'false': 'DFalse', 'int64': '(DGiven KI "int64"%string)', 'float64': '(DGiven KF "float64"%string)',
+        'float32': '(DGiven KF "float32"%string)', 'bool': '(DGiven KB "bool"%string)', 'U3': '(DGiven (KS 3) "<U3"%string)'}
+
+
 class Recorder:
     """the uninterpreted operation: records exactly what it is called with"""
 
-    def __init__(self, out_kind):
+    def __init__(self, out_kind, pattern=None, width=2):
         self.log = []
         self.outs = []
         self.out_kind = out_kind
+        self.pattern = pattern
+        self.width = width
 
     def __call__(self, *args, **kwargs):
         k = len(self.log)
@@ -184,7 +285,10 @@ class Recorder:
                              arg_ids=[id(a) for a in args],
                              kw_ids={kk: id(v) for kk, v in kwargs.items()}))
         ok = self.out_kind
-        if ok == 'int':
+        if ok == 'typed':
+            # the TYPE of the output depends on the row: call k returns a value of type pattern[k mod len]
+            o = typed_value(self.pattern[k % len(self.pattern)], k, self.width)
+        elif ok == 'int':
             o = k
         elif ok == 'float':
             o = k + 0.5
@@ -217,7 +321,7 @@ def which_call(rec, entry, obj):
         return None
 
 
-DTYPES = {'none': None, 'false': False, 'int64': 'int64', 'float64': 'float64', 'float32': np.float32}
+DTYPES = {'none': None, 'false': False, 'int64': 'int64', 'float64': 'float64', 'float32': np.float32, 'bool': 'bool', 'U3': 'U3'}
 
 
 class C18(PropCheck):
@@ -235,6 +339,12 @@ class C18(PropCheck):
             'the same callable as node of an ElfiModel generated for 2-4 batches of different size interleaved with direct calls; every call '
             'checked against the per-row specification of ITS OWN inputs and the caller\'s constants object compared with its initial contents '
             'after every call; '
+            '(a3) in half of all vectorize cases (direct, model, histories) the operation\'s output TYPE depends on the row: a pattern of 2-6 '
+            'row types in random order from one family (python bool/int, int/float, bool/float, bool/int/float, texts of 1-8 characters, '
+            'lists of 1-3 bools/ints/floats/mixed, lists of texts; or one type throughout) under dtype None / False / int64 / float64 / '
+            'float32 / bool / U3; for EVERY vectorize call the typed outputs of the operation and the dtype and entries of the returned array '
+            'go to Coq: dtype=None -> element type = numpy promotion over ALL rows and every entry holds its own row\'s value unchanged, '
+            'dtype=False -> the entries are the outputs themselves, explicit dtype -> every entry is its own row cast to it; '
             '(b) external_operation with echo templates over positional/keyword/meta/seed inputs, direct, vectorized and inside a model with '
             'uses_meta on/off; (b2) the stdout handler explored jointly over process_result in {None, dtype as str (canonical name or alias '
             'i4/i8/int/float/f/<f4/<f8), numpy.dtype, a user callable on the raw stdout with a decoy sep} x element types int8..int64, '
@@ -253,7 +363,11 @@ class C18(PropCheck):
                'of characters that can occur in a number, values outside the range of the requested integer type and non-native byte '
                'orders are not generated: numpy returns filler / wrapped / byte-swapped values there instead of raising)',
                'numpy RandomState(seed).randint(2**31, size=K, dtype=uint32) as the stream fed to the C15 seed model',
-               'external-command inputs restricted to ints and shell-safe strings (str() rendering modelled for those only)')
+               'external-command inputs restricted to ints and shell-safe strings (str() rendering modelled for those only)',
+               'numpy.array(list of row outputs, dtype) is runtime behaviour modelled by Vectorize.collect (promotion bool < int64 < float64, '
+               'texts: longest length; C casts for an explicit dtype) and sampled by the correspondence; not generated / outside the model: '
+               'numbers and texts in one batch, integers beyond 2**53 next to floats, rows of different shapes under dtype != False, nan/inf, '
+               'numpy scalar types other than the python ones')
 
     # -- generation ---------------------------------------------------------------------------
     def gen_value(self, n, allow_array=True, kinds=None):
@@ -291,6 +405,24 @@ class C18(PropCheck):
             return ['a0', ['i', r.randint(0, 9)]]
         return ['none', 0]
 
+    def gen_typed(self, dt, out_kind, dts_num=TYPED_DTYPES_NUM, dts_str=TYPED_DTYPES_STR, p=0.5):
+        """with probability p replace (dtype, output kind) by an operation whose output TYPE depends on the row: a pattern of row
+        types drawn from one family (int literal in some rows and float in others, bool/int, short and long texts, lists of ints /
+        floats), in random order, under dtype None / False / explicit.  Returns (dtype, out_kind, pattern, width)"""
+        r = self.rng
+        if r.random() >= p:
+            self.bump('typed:family=-')
+            return dt, out_kind, None, 0
+        fam = r.choice(sorted(TYPED_FAMILIES) * 3 + ['uniform'])
+        types = [r.choice(TYPED_UNIFORM)] if fam == 'uniform' else TYPED_FAMILIES[fam]
+        L = r.randint(2, 6)
+        pattern = [r.choice(types) for _ in range(L)]
+        text = pattern[0][0] == 's' or pattern[0][:2] == 'vs'
+        dt = r.choice(dts_str if text else dts_num)
+        self.bump('typed:family=' + fam)
+        self.bump('typed:dtype=' + dt)
+        return dt, 'typed', pattern, r.choice([1, 2, 2, 3])
+
     def gen_vec_direct(self):
         r = self.rng
         n = r.choice([0, 1, 1, 2, 3, 3, 4, 6])
@@ -311,6 +443,7 @@ class C18(PropCheck):
         batch_size = None if bsm == 'omit' else (n if bsm == 'match' else r.choice([0, 1, 2, 5]))
         dt = r.choice(['none', 'none', 'false', 'false', 'int64', 'float64', 'float32'])
         out_kind = r.choice(['tuple', 'str', 'ragged', 'int', 'vec']) if dt == 'false' else r.choice(['int', 'float', 'vec'])
+        dt, out_kind, pattern, width = self.gen_typed(dt, out_kind)
         kw = []
         if r.random() < 0.5:
             kw.append(['foo', ['i', r.randint(0, 9)]])
@@ -328,7 +461,7 @@ class C18(PropCheck):
         self.bump('vec:n=%d' % n)
         self.bump('vec:arity=%d' % arity)
         return dict(kind='vec', mode='direct', inputs=inputs, constants=constants, batch_size=batch_size, dtype=dt,
-                    out_kind=out_kind, kw=kw, rs=rs, meta=meta, ctuple=r.random() < 0.5)
+                    out_kind=out_kind, pattern=pattern, width=width, kw=kw, rs=rs, meta=meta, ctuple=r.random() < 0.5)
 
     def gen_model_nodes(self, n, for_ext=False):
         """parents of the node under test inside an ElfiModel: priors (arrays of length batch_size), constants"""
@@ -364,12 +497,13 @@ class C18(PropCheck):
             constants = [i for i, p in enumerate(parents) if p[0] == 'const']
         dt = r.choice(['none', 'false', 'float64'])
         out_kind = r.choice(['tuple', 'str', 'int']) if dt == 'false' else r.choice(['int', 'float', 'vec'])
+        dt, out_kind, pattern, width = self.gen_typed(dt, out_kind)
         node = r.choice(['Simulator', 'Simulator', 'Operation', 'Summary'])
         self.bump('vecmodel:node=' + node)
         self.bump('vecmodel:consts=' + cm)
         self.bump('vecmodel:n=%d' % n)
         return dict(kind='vec', mode='model', parents=parents, constants=constants, n=n, dtype=dt, out_kind=out_kind,
-                    node=node, uses_meta=r.random() < 0.5, seed=r.randrange(2 ** 31))
+                    pattern=pattern, width=width, node=node, uses_meta=r.random() < 0.5, seed=r.randrange(2 ** 31))
 
     # -- histories: ONE vectorised callable, several calls ------------------------------------------------
     SCALAR_KINDS = ['int', 'int', 'nint', 'float', 'str', 'list', 'a0', 'tuple', 'none']
@@ -456,11 +590,13 @@ class C18(PropCheck):
             calls.append(c)
         dt = r.choice(['none', 'none', 'false', 'false', 'int64', 'float64'])
         out_kind = r.choice(['tuple', 'str', 'ragged', 'int', 'vec']) if dt == 'false' else r.choice(['int', 'float', 'vec'])
+        dt, out_kind, opattern, width = self.gen_typed(dt, out_kind)
         self.bump('hist:pattern=' + pattern)
         self.bump('hist:ncalls=%d' % ncalls)
         self.bump('hist:consts=' + ckind + ('' if constants is None else ':%d' % len(constants)))
         self.bump('hist:dtype=' + dt)
-        return dict(kind='vec', mode='hist', constants=constants, ckind=ckind, dtype=dt, out_kind=out_kind, calls=calls,
+        return dict(kind='vec', mode='hist', constants=constants, ckind=ckind, dtype=dt, out_kind=out_kind, pattern=opattern,
+                    width=width, calls=calls,
                     positional=r.random() < 0.3)
 
     def gen_vec_histmodel(self):
@@ -496,13 +632,14 @@ class C18(PropCheck):
             steps.insert(r.randint(0, len(steps) - 1), c)     # never last: a model batch always follows a direct call
         dt = r.choice(['none', 'false', 'float64'])
         out_kind = r.choice(['tuple', 'str', 'int']) if dt == 'false' else r.choice(['int', 'float', 'vec'])
+        dt, out_kind, pattern, width = self.gen_typed(dt, out_kind)
         node = r.choice(['Simulator', 'Simulator', 'Operation', 'Summary'])
         self.bump('histmodel:node=' + node)
         self.bump('histmodel:consts=' + ckind)
         self.bump('histmodel:batches=%d' % nb)
         self.bump('histmodel:direct_calls=%d' % nd)
         return dict(kind='vec', mode='histmodel', parents=parents, constants=constants, ckind=ckind, dtype=dt, out_kind=out_kind,
-                    node=node, uses_meta=r.random() < 0.5, steps=steps)
+                    pattern=pattern, width=width, node=node, uses_meta=r.random() < 0.5, steps=steps)
 
     def gen_template(self, arity, keys, numeric):
         r = self.rng
@@ -778,7 +915,11 @@ class C18(PropCheck):
         ret = np.asarray(ret) if not isinstance(ret, np.ndarray) else ret
         obj = bool(ret.dtype == object and ret.ndim == 1)
         order = []
-        if ret.ndim > 0:
+        if ret.ndim > 0 and rec.out_kind == 'typed':
+            # typed outputs do not encode the call number (bools, equal texts): entries are matched to calls by position and the
+            # VALUES of the entries are compared with the outputs in the typed clause (Coq typed_ok / typed_agree)
+            order = list(range(len(ret))) if len(ret) == len(log) else [None] * len(ret)
+        elif ret.ndim > 0:
             for i in range(len(ret)):
                 k = which_call(rec, ret[i], obj)
                 order.append(None if k is None else k - start)
@@ -793,6 +934,14 @@ class C18(PropCheck):
                 calls.append(dict(args=c['args'], kw=c['kw'], meta=c['meta']))
         res.update(calls=calls, obj=obj, order=order, ret_dtype=str(ret.dtype), ret_shape=list(ret.shape),
                    log_ids=[dict(arg_ids=c['arg_ids'], kw_ids=c['kw_ids']) for c in log])
+        # typed view: what the operation returned per call, and the returned array's dtype and entries
+        eouts = [enc_out(o) for o in outs]
+        eret = enc_ret(ret, obj) if ret.ndim > 0 else None
+        res['typed'] = dict(outs=eouts, ret=eret) if eret is not None and all(e is not None for e in eouts) else None
+        try:
+            res['row0_narrower'] = bool(len(outs) > 1 and np.array(outs[:1]).dtype != np.array(outs).dtype)
+        except Exception:
+            res['row0_narrower'] = None
         # numpy's own conversion of the raw outputs, for the dtype clause
         if dtype is not False:
             try:
@@ -875,7 +1024,7 @@ class C18(PropCheck):
 
     def run_vec(self, case):
         import elfi
-        rec = Recorder(case['out_kind'])
+        rec = Recorder(case['out_kind'], case.get('pattern'), case.get('width') or 2)
         dtype = DTYPES[case['dtype']]
         mode = case['mode']
         ckind = case.get('ckind') or ('tuple' if case.get('ctuple') else 'list')
@@ -1025,6 +1174,10 @@ class C18(PropCheck):
             out = self.run_vec(case)
             for c in out['hist']:
                 self.bump('outcome:vec:%s:%s' % (case['mode'], c['error'] or 'ok'))
+                if c['calls'] is not None:
+                    self.bump('typed:observed=%s' % (c.get('typed') is not None))
+                    if case['out_kind'] == 'typed' and len(c['calls']) > 1:
+                        self.bump('typed:dtype=%s:row0_narrower_than_all_rows=%s' % (case['dtype'], c.get('row0_narrower')))
             if len(out['hist']) > 1:
                 self.bump('history:calls', len(out['hist']))
                 self.bump('history:kind_switch_at_unmasked_position=%s' % out['kind_switch'])
@@ -1175,10 +1328,16 @@ class C18(PropCheck):
             terms = []
             for c in out['hist']:
                 impl = copt(c['calls'], lambda cs: clist([ccall(x) for x in cs]))
+                typed = None
+                if c['calls'] is not None and c.get('typed') is not None:
+                    t = c['typed']
+                    typed = '{| t_dtype := %s; t_outs := %s; t_ret := (%s, %s) |}' % (
+                        DREQ[case['dtype']], clist([coval(o) for o in t['outs']]), cstr(t['ret'][0]), clist([coval(o) for o in t['ret'][1]]))
                 terms.append('(CVec {| v_inputs := %s; v_constants := %s; v_batch_size := %s; v_kw := %s; v_meta := %s; '
-                             'v_dtype_false := %s; v_impl := %s; v_impl_obj := %s |})'
+                             'v_dtype_false := %s; v_impl := %s; v_impl_obj := %s; v_typed := %s |})'
                              % (clist([cval(x) for x in c['inputs']]), cconst, copt(c['batch_size'], cnat), cdict(c['kw']),
-                                copt(c['meta'], cdict), cbool(case['dtype'] == 'false'), impl, cbool(c['obj'])))
+                                copt(c['meta'], cdict), cbool(case['dtype'] == 'false'), impl, cbool(c['obj']),
+                                copt(typed, lambda x: x)))
             return clist(terms)
         # ext
         oc = out['outcome']
